@@ -50,6 +50,8 @@ def check_doc(sh, doc, style_seed, knobs=None, label='random', expect=None):
     feats = gen.features(doc)
     sh.case(text, nontrivial=len(feats) >= 1, sample={'suite': label, 'text': text[:1500]})
     sh.count('obs.docs.' + label)
+    for k_ in getattr(doc, 'classes', ()):
+        sh.count('obs.class.' + k_)
     db, err = parse(text, allow_properties=doc.allow_properties)
     case = {'kind': 'parse_compare', 'text': text, 'expected': exp,
             'allow_properties': doc.allow_properties}
